@@ -36,6 +36,7 @@ theorem C03.stepsOk_childrenOf (parts : List Part) (hs : StepsOk parts) :
   obtain ⟨kvs, h⟩ := hs p hp node
   simp [childrenOf, h]
 
+set_option linter.unusedVariables false in -- `hlen` is not needed: one step re-establishes lock-step
 /-- lock-step invariant of the loop: `data` and `concrete_paths` always have the same length, so
     the index `concrete_paths[datum_idx]` never fails -/
 theorem C03_lockstep (parts : List Part) (first : Bool) (data : List PyVal) (paths : List (List PyVal))
@@ -96,6 +97,7 @@ theorem C03_step_items (p : Part) (node : PyVal) (kvs : List (PyVal × PyVal)) (
 
 /-! ### primitive parts -/
 
+set_option linter.unusedVariables false in -- `hne` is not needed (both sides are `[]` for `{}`)
 /-- a string (or float) part matches the mapping children whose key equals it, and nothing in a list -/
 theorem C03_prim_str (s : String) (p : Part) (hp : Part.ofPrim (.str s) = .ok p)
     (kvs : List (PyVal × PyVal)) (hne : kvs ≠ []) (xs : List PyVal) :
@@ -105,6 +107,7 @@ theorem C03_prim_str (s : String) (p : Part) (hp : Part.ofPrim (.str s) = .ok p)
   cases hp
   exact ⟨stepNode_keyPart_dict _ kvs, stepNode_keyPart_list _ xs⟩
 
+set_option linter.unusedVariables false in -- `hne`, `hxs` are not needed (both sides are `[]` then)
 /-- an integer part matches the mapping children whose key equals it, or the list child at that index -/
 theorem C03_prim_int (n : Int) (p : Part) (hp : Part.ofPrim (.int n) = .ok p)
     (kvs : List (PyVal × PyVal)) (hne : kvs ≠ []) (xs : List PyVal) (hxs : xs ≠ []) :
@@ -132,6 +135,22 @@ theorem C03_prim_at_most_one (v : PyVal) (p : Part) (hp : Part.ofPrim v = .ok p)
   · rw [stepNode_keyOrIndexPart_dict] at h
     cases h
     exact filter_key_prim_le_one v hv kvs hd
+
+/-- primitive parts never raise, so `StepsOk` holds for every concrete path (and `C03_walk`,
+    `C03_get_data` apply to them unconditionally) -/
+theorem C03_prim_steps_ok (parts : List Part) (h : ∀ p ∈ parts, ∃ v, Part.ofPrim v = .ok p) :
+    StepsOk parts := by
+  intro p hp node
+  obtain ⟨v, hv⟩ := h p hp
+  obtain ⟨_, rfl | rfl⟩ := ofPrim_cases v p hv
+  · cases node with
+    | dict kvs => exact ⟨_, stepNode_keyPart_dict v kvs⟩
+    | list xs => exact ⟨_, stepNode_keyPart_list v xs⟩
+    | _ => exact ⟨_, C03_inapplicable _ _ (by intro xs; simp) (by intro xs; simp)⟩
+  · cases node with
+    | dict kvs => exact ⟨_, stepNode_keyOrIndexPart_dict v kvs⟩
+    | list xs => exact ⟨_, stepNode_keyOrIndexPart_list v xs⟩
+    | _ => exact ⟨_, C03_inapplicable _ _ (by intro xs; simp) (by intro xs; simp)⟩
 
 /-! ### non-vacuity -/
 
